@@ -18,6 +18,7 @@ package page
 //@ predicate pageOK(p MappedPage) bool = p != nil && typeis(p, "*mappedPage") && offset(cast(p, "*mappedPage").mappedBytes) == 0 && owns(p, cast(p, "*mappedPage").mappedBytes) && len(cast(p, "*mappedPage").mappedBytes) >= 0
 
 //@ func MappedPage.PutUint64
+//@   persistent
 //@   requires pageOK(self) && offset >= 0 && offset <= psize(self) - 8 && psize(self) >= 8
 //@   modifies cast(self, "*mappedPage").mappedBytes[*]
 //@   ensures pbytes(self) == put64(old(pbytes(self)), offset, value)
@@ -27,6 +28,7 @@ package page
 //@   ensures result == get64(pbytes(self), offset)
 //@ end
 //@ func MappedPage.PutUint32
+//@   persistent
 //@   requires pageOK(self) && offset >= 0 && offset <= psize(self) - 4 && psize(self) >= 4
 //@   modifies cast(self, "*mappedPage").mappedBytes[*]
 //@   ensures pbytes(self) == put32(old(pbytes(self)), offset, value)
@@ -71,10 +73,12 @@ package page
 //@ lemma byte_put32_other bv prop C05 C06: all(m, "map[int]byte", all(o, "int", all(p, "int", all(v, "uint32", (okOff(o) && okOff(p) && (p < o || o + 4 <= p)) ==> put32(m, o, v)[p] == m[p]))))
 
 //@ func MappedPage.WriteBytes
+//@   persistent
 //@   requires pageOK(self) && offset >= 0 && offset <= psize(self) - len(data)
 //@   modifies cast(self, "*mappedPage").mappedBytes[*]
 //@   ensures forall(j, 0, len(data), pbytes(self)[offset + j] == old(data[j]))
 //@   ensures all(j, (j < offset || j >= offset + len(data)) ==> pbytes(self)[j] == old(pbytes(self))[j])
+//@   ensures all(p, "ref", (pageOK(p) && p != self) ==> pbytes(p) == old(pbytes(p)))
 //@ end
 //@ func MappedPage.ReadBytes
 //@   requires pageOK(self) && offset >= 0 && length >= 0 && offset <= psize(self) - length
@@ -86,6 +90,7 @@ package page
 //@   modifies mp.mappedBytes[*]
 //@   ensures forall(j, 0, len(data), contents(mp.mappedBytes)[offset + j] == old(data[j]))
 //@   ensures all(j, (j < offset || j >= offset + len(data)) ==> contents(mp.mappedBytes)[j] == old(contents(mp.mappedBytes))[j])
+//@   ensures all(p, "ref", (pageOK(p) && p != mp) ==> pbytes(p) == old(pbytes(p)))
 //@ end
 //@ func mappedPage.ReadBytes
 //@   prop C05
@@ -99,7 +104,9 @@ package page
 //@ predicate fpsize(f Factory) int = cast(f, "*factory").pageSize
 //@ # every mapped page belongs to the factory that created it (pages of different factories are different objects)
 //@ uf pfactory(ref) ref
-//@ predicate factoryOK(f Factory) bool = f != nil && typeis(f, "*factory") && cast(f, "*factory").pages != nil && cast(f, "*factory").pageSize >= 0 && owns(f, cast(f, "*factory").pages) && all(id, "int64", fhas(f, id) ==> (pageOK(fpage(f, id)) && psize(fpage(f, id)) == fpsize(f) && pfactory(fpage(f, id)) == f))
+//@ uf page_id(ref) int64
+//@ uf file_id(string) int64
+//@ predicate factoryOK(f Factory) bool = f != nil && typeis(f, "*factory") && cast(f, "*factory").pages != nil && cast(f, "*factory").pageSize >= 0 && owns(f, cast(f, "*factory").pages) && all(id, "int64", fhas(f, id) ==> (pageOK(fpage(f, id)) && psize(fpage(f, id)) == fpsize(f) && pfactory(fpage(f, id)) == f && page_id(fpage(f, id)) == id))
 
 //@ # content of a page file when it is first mapped: a function of (directory, page id)
 //@ uf file_disk(string) map[int]byte
@@ -136,12 +143,12 @@ package page
 //@ # constructor of a mapped page: trusted (mmap, file system); establishes pageOK
 //@ func NewMappedPage
 //@   assume
-//@   ensures result1 == nil ==> (fresh(result0) && fresh(cast(result0, "*mappedPage").mappedBytes) && pageOK(result0) && psize(result0) == size && pbytes(result0) == file_disk(fileName) && pfactory(result0) == file_factory(fileName))
+//@   ensures result1 == nil ==> (fresh(result0) && fresh(cast(result0, "*mappedPage").mappedBytes) && pageOK(result0) && psize(result0) == size && pbytes(result0) == file_disk(fileName) && pfactory(result0) == file_factory(fileName) && page_id(result0) == file_id(fileName))
 //@ end
 //@ uf file_factory(string) ref
 //@ func factory.pageFileName
 //@   assume
-//@   ensures result == page_file(f.path, index) && file_factory(result) == f
+//@   ensures result == page_file(f.path, index) && file_factory(result) == f && file_id(result) == index
 //@ end
 //@ func removeFileFunc
 //@   assume
